@@ -148,6 +148,61 @@ def check_probe_case(case, acc):
                  'unblocked file with bytes 1012-1013 = %02x %02x, 2026-2027 = %02x %02x' % tuple(got))
 
 
+def check_config_sequence(case, acc):
+    """ipm_info judges the first bitmap against the configuration AS IT IS when it is called: inspect, edit the
+    packaged bit_config in place (configure DE7, de-configure DE26), inspect again, restore, inspect again"""
+    import copy
+    from cardutil import mciipm, config
+    live = config.config['bit_config']
+    saved = copy.deepcopy(live)
+    acc.case(('cfgseq', case['enc'], case['blocked'], tuple(case['steps'])), nontrivial=True, outcome='config_sequence')
+
+    def file_with(bit, value, cfg):
+        f = io.BytesIO()
+        w = mciipm.IpmWriter(f, encoding=case['enc'], blocked=case['blocked'], iso_config=cfg)
+        w.write({'MTI': '1240', 'DE%d' % bit: value})
+        w.close()
+        return f.getvalue()
+    cfg7 = copy.deepcopy(saved)
+    cfg7['7'] = {'field_name': 'added at run time', 'field_type': 'FIXED', 'field_length': 10}
+    files = {'de7': file_with(7, '0102030405', cfg7), 'de26': file_with(26, 5411, saved), 'de3': file_with(3, '000000', saved)}
+    try:
+        for step in case['steps']:
+            if step == 'add7':
+                live['7'] = dict(cfg7['7'])
+            elif step == 'del7':
+                live.pop('7', None)
+            elif step == 'del26':
+                live.pop('26', None)
+            elif step == 'add26':
+                live['26'] = copy.deepcopy(saved['26'])
+            else:
+                name = step.split(':')[1]
+                needs = {'de7': '7', 'de26': '26', 'de3': '3'}[name]
+                want_valid = needs in live
+                try:
+                    info = mciipm.ipm_info(io.BytesIO(files[name]))
+                except Exception as ex:
+                    acc.viol('c17.cfgseq.exception', case, repr(ex), 'info dict')
+                    return
+                if bool(info.get('isValidIPM')) != want_valid or (not want_valid and not info.get('reason')):
+                    acc.viol('c17.cfgseq.%s' % ('valid_reported_invalid' if want_valid else 'invalid_reported_valid'),
+                             case, 'step %s: %r' % (step, info), 'isValidIPM %s' % want_valid,
+                             'element %s is %sconfigured at the time of the call' % (needs, '' if want_valid else 'not '))
+                    return
+    finally:
+        live.clear()
+        live.update(saved)
+
+
+CONFIG_SEQUENCES = [
+    ['info:de3', 'add7', 'info:de7', 'del7', 'info:de7', 'info:de3'],
+    ['info:de7', 'add7', 'info:de7', 'info:de26', 'del26', 'info:de26', 'add26', 'info:de26'],
+    ['info:de26', 'del26', 'info:de26', 'info:de3', 'add26', 'add7', 'info:de7', 'info:de26'],
+    ['add7', 'info:de7', 'del7', 'info:de7', 'add7', 'info:de7'],
+]
+
+
 def check_invalid_case(case, acc):
     from cardutil import mciipm, config
     kind = case['kind']
@@ -194,6 +249,8 @@ def check_invalid_case(case, acc):
 def replay_into(case, acc):
     if case.get('kind') == 'probe':
         check_probe_case(case, acc)
+    elif case.get('kind') == 'cfgseq':
+        check_config_sequence(case, acc)
     elif case.get('kind'):
         check_invalid_case(case, acc)
     else:
@@ -213,6 +270,10 @@ def enumerate_cases(tier, seed):
     for enc in ASCII_FAMILY + EBCDIC_FAMILY:
         for b in itertools.product((False, True), repeat=4):
             cases.append({'kind': 'probe', 'enc': enc, 'b': list(b), 'size': 'long'})
+    for steps in CONFIG_SEQUENCES:
+        for enc in ('latin_1', 'cp500'):
+            for blocked in (False, True):
+                cases.append({'kind': 'cfgseq', 'enc': enc, 'blocked': blocked, 'steps': steps})
     for n in range(0, 40):
         cases.append({'kind': 'short', 'n': n})
     for mx in (None, 100, 1012):
@@ -226,7 +287,7 @@ def enumerate_cases(tier, seed):
 
 
 def tasks(tier, seed):
-    return [{'cases': ch} for ch in core.spread(enumerate_cases(tier, seed), 64)]
+    return [{'cases': ch} for ch in core.chunks(enumerate_cases(tier, seed), 64)]
 
 
 def run_task(task):
@@ -246,6 +307,8 @@ def describe(tier, seed):
                 'decodes the MTI and belongs to the right family; blocked files isBlocked true; unblocked files '
                 'isBlocked false unless bytes 1012-1013 are both 0x40; plus unblocked files whose bytes 1012, 1013, 2026, '
                 '2027 are each 0x40 or not (all 16 combinations x 6 codecs: 0x40 is @ in ASCII and space in EBCDIC). '
+                'Sequences in which the packaged configuration is edited in place between inspections (DE7 configured / '
+                'removed, DE26 removed / restored): each call is judged against the configuration as it is then. '
                 'Invalid classes: lengths 0..39 (valid from 24), '
                 'first length max-1/max/max+1/+2/+1000 under MAX_VBS_RECORD_LENGTH default/100/1012, each of the %d '
                 'unconfigured bits of 2..128 alone in the first bitmap: isValidIPM false with a non-empty reason.'
